@@ -119,7 +119,7 @@ def _work(args):
     return ("ok", list(succ.items()), out)
 
 
-def bfs(modname, tier, params, depth, budget_s=None, max_states=None, dedup=True):
+def bfs(modname, tier, params, depth, budget_s=None, max_states=None, dedup=True, collect=None):
     """returns (Out, stats dict)"""
     t0 = time.time()
     ctx = multiprocessing.get_context("fork")
@@ -151,6 +151,8 @@ def bfs(modname, tier, params, depth, budget_s=None, max_states=None, dedup=True
                         seen[d] = None
                         nxt.append(h)
             levels.append(n)
+            if collect is not None:
+                collect.extend(frontier)
             frontier = nxt
             if budget_s is not None and time.time() - t0 > budget_s and expand and level + 1 < depth:
                 capped = "time budget %ss reached after completing level %d" % (budget_s, level)
